@@ -322,7 +322,7 @@ class RBFEvaluator(FuncEvaluator, XCEvalSerializable):
         full_shape = X1.shape
         X1 = np.ascontiguousarray(X1[..., self._indexes])
         if res is None:
-            res = np.zeros(X1.shape[0])
+            res = np.zeros(X1.shape[-2])
         elif res.shape != (X1.shape[-2],):
             raise ValueError
         if dres is None:
